@@ -201,23 +201,23 @@ NA_PENDING = "checker for this property is still being built in this commit; pla
 # tables added after the first version of the claims (DESIGN.md §0.3, §7.2–§7.4): appended to the claim texts
 ADDENDA = {
     "C01": " Also: the builder is run together with the real growth function (only the step function is scripted), the driver's own step queries are oracles, and the canonical-form tables (min_rc_flip for every k-mer type, odd K included) are part of the check. Since waves 7-8: the k-mer route's step, growth and builder functions interpreted together on scripted lines, rings and hairpins (the availability typestate is decided there, whoever does the claiming); long-walk rows at mined size constants; stranded builder rows; filter_kmers tables; PackedDnaStringSet::add and DnaString::extend lemmas; byte-container k-mer reads.",
-    "C02": " Also: pruning tables (get_valid_exts, fix_exts, both censor functions, semantic sorted-table model), both summarizer tables, self-neighbour rows. Since waves 7-8: both chain tables (lines, rings, hairpins), index-builder and find_link tables, is_compressed soundness (no false report: compress_graph asserts on it), the no-extensions entry point with reverse-complement provenance, filter_kmers tables.",
+    "C02": " Also: pruning tables (get_valid_exts, fix_exts, both censor functions, semantic sorted-table model), both summarizer tables, self-neighbour rows. Since waves 7-8: both chain tables (lines, rings, hairpins), index-builder and find_link tables, is_compressed soundness (no false report: compress_graph asserts on it), the no-extensions entry point with reverse-complement provenance, filter_kmers tables. Wave 10: the sort models consult the entry-point table's key-order oracle (a permuted index must keep every key with its own payload).",
     "C03": " Also: stranded rows of find_edges, gapped packed store in the index-builder table, summarizer tables, bucket lemma (sorted all-k-mers list for the sharded pruning), beam expansion with end-on-path scenarios; max_path is judged on the returned path only. Since waves 7-8: graph driver (censor list), both chain tables, flank tables (Exts::from_slice_bounds / from_dna_string).",
     "C04": " Also: find_link / pruning / censor tables, Exts::from_dna_string and slice-bounds tables, combine with empty shard graphs. Since waves 7-8: scanner tables (coverage, 2k-p bound), index-builder tables, both chain tables, filter_kmers tables, DnaString::blank lemma (piece containers).",
     "C05": " Also: canonical-form tables for every k-mer type, end-to-end k-mer iterator lemmas (next/nth/size_hint on monomorphic instances), pass-membership sweep, large-group rows at mined sizes. Since waves 7-8: exact threshold witness for the set summarizer, byte-container k-mer reads, override table for the k-mer iterators.",
     "C06": " Also: scanner score/order/scan tables, slice view tables, and the persisted strandedness flag (serde all-fields rule for the graph types). Since waves 7-8: container rc lemmas (DnaString, Lmer), both chain tables with every stored orientation.",
     "C07": " Also: score closures, poly-A sentinel oracle, counter-model search over score assignments, short-read rows. Since waves 7-8: long-sequence rows one block past every size constant the scanner mentions (none on the pinned tree), byte-container k-mer reads.",
     "C08": " Also: canonical-form tables (bucket id = rank of min_rc of the minimizer), capacity guard, Lmer::from_slice lemma, long-read rows at mined sizes (MAX_SCAN_LEN+1). Since waves 7-8: ranked mode of the score table (p-mers scripted as the 16 two-letter k-mers when scores are pre-computed), DnaString::blank lemma.",
-    "C09": " Also: find_link, get_valid_exts (incl. via find_edges / subtractive form), fix_exts, sequence_of_path (bases in normal form), payload-equality oracle in the builder, builder composed with the real growth function. Since waves 7-8: graph chain table, index-builder tables, is_compressed soundness, entry points of the k-mer route (incl. the one that finds the extensions), faithful node path in the scripted builder, packed-set add lemmas.",
-    "C10": " Also: monomorphic lemmas for the default methods and for Debug/Display of every k-mer type; case-splitting harness; compiler-evaluated static tables. Since waves 7-8: sum-field domain (in-register counting proved / refuted lane by lane), checked conversions by case split, immutable writes (MerImmut), base iteration through Mer::iter, the ASCII byte tables.",
+    "C09": " Also: find_link, get_valid_exts (incl. via find_edges / subtractive form), fix_exts, sequence_of_path (bases in normal form), payload-equality oracle in the builder, builder composed with the real growth function. Since waves 7-8: graph chain table, index-builder tables, is_compressed soundness, entry points of the k-mer route (incl. the one that finds the extensions), faithful node path in the scripted builder, packed-set add lemmas. Wave 10: the k-mer route's step table and chain table also run here (the 'same partition as compressing the k-mer table directly' clause).",
+    "C10": " Also: monomorphic lemmas for the default methods and for Debug/Display of every k-mer type; case-splitting harness; compiler-evaluated static tables. Since waves 7-8: sum-field domain (in-register counting proved / refuted lane by lane), checked conversions by case split, immutable writes (MerImmut), base iteration through Mer::iter, the ASCII byte tables. Wave 10: alias-length rule (a public alias KmerN reports k() = N).",
     "C11": " Also: canonical-form exploration tables, from_bytes/from_ascii lemmas. Since waves 7-8: immutable writes, k-mers read out of sequence containers (store lemmas, terminal accessors at lengths K+1..K+5), the ASCII byte tables.",
     "C12": " Also: exact view lemmas (conversions, get_kmer and terminal accessors on reverse-complemented views). Since waves 7-8: store k-mer lemmas (k-mer extraction on both sides of the commutation).",
-    "C13": " Also: exact get_kmer / first_kmer / last_kmer / term_kmer / both_term_kmer lemmas on views at offsets straddling two and three storage words, end-to-end iterator lemmas, byte-container lemmas. Since waves 7-8: Lmer new/len for every capacity, override table for the k-mer iterators (differential against next()), end-to-end k-mer iterator lemmas over views, accessor lemmas at lengths K+1..K+5.",
+    "C13": " Also: exact get_kmer / first_kmer / last_kmer / term_kmer / both_term_kmer lemmas on views at offsets straddling two and three storage words, end-to-end iterator lemmas, byte-container lemmas. Since waves 7-8: Lmer new/len for every capacity, override table for the k-mer iterators (differential against next()), end-to-end k-mer iterator lemmas over views, accessor lemmas at lengths K+1..K+5. Wave 10: scalar byte table and vector-kernel table of the ASCII route (C13.8); Lmer terminal-accessor lemmas for every capacity.",
     "C14": " Also: render and order lemmas (hand-written comparison impls are decided by the interpreted order table), vector kernels and byte tables, base iteration by reference. Since waves 7-8: hashed-N table, exact to_owned lemma (canonical representation), white-space row of from_dna_string.",
     "C15": " Also: exact view lemmas on symbolic backing strings (incl. backings whose length is a multiple of 32 and the empty string), view get_kmer for wide k-mers, base iteration of views. The abbreviated debug form of views >= 256 bases is treated as outside the clause (DESIGN.md C15). Since waves 7-8: exact Hamming lemmas (whole blocks over two symbolic backings; whole string against a prefix of a longer one), override table for the k-mer iterators, receiver-type dispatch in the generic tables.",
-    "C16": " Also: final-state hashed-N table (lower case, vector path), the whole ASCII alphabet through from_dna_string, DnaString render lemmas. Since waves 7-8: str::trim* modelled, white-space row.",
-    "C17": " Also: from_slice lemma, == / != table on structured operand pairs (when written by hand), Debug lemma per capacity. Since waves 7-8: immutable writes (MerImmut::set / set_slice incl. 32-base runs) for every capacity.",
-    "C18": " Also: end-to-end lemma on monomorphic instances (NodeKmer::into_iter + scripted interleavings of next / nth(n), n up to usize::MAX), machine-arithmetic obligation on the affine counters, empty-graph row of the node iterators. Since waves 7-8: override table for the node iterators (differential against next()).",
+    "C16": " Also: final-state hashed-N table (lower case, vector path), the whole ASCII alphabet through from_dna_string, DnaString render lemmas. Since waves 7-8: str::trim* modelled, white-space row. Wave 10: _mm256_set1_* / setr_* intrinsics modelled.",
+    "C17": " Also: from_slice lemma, == / != table on structured operand pairs (when written by hand), Debug lemma per capacity. Since waves 7-8: immutable writes (MerImmut::set / set_slice incl. 32-base runs) for every capacity. Wave 10: first_kmer / last_kmer / term_kmer / both_term_kmer lemmas for every capacity and k-mer type at lengths K+1, K+2, 2K-1, 2K and the maximum.",
+    "C18": " Also: end-to-end lemma on monomorphic instances (NodeKmer::into_iter + scripted interleavings of next / nth(n), n up to usize::MAX), machine-arithmetic obligation on the affine counters, empty-graph row of the node iterators. Since waves 7-8: override table for the node iterators (differential against next()). Wave 10: PackedDnaStringSet::add table incl. rows with a legal but inexact size hint (the node length n of 'n-K+1 k-mers').",
     "C19": " Also: terminal k-mer order / equality oracles (incl. the all-A key) and map semantics in the builder table, explicit schedules of crate-spawned tasks, index layer with keyless hashes, find_link and find_edges tables (stranded and unstranded). Since waves 7-8: the finished graph must be the graph handed in (strandedness, vectors, packed sequences), capacity management modelled as a no-op.",
     "C20": " Also: serde conversions (try_from/from) interpreted on every serialized DnaString, Debug builders rendered, exact to_dna_string lemmas on views, empty `rest` object. Since waves 7-8: OpenOptions sinks (truncation), a writer whose write() accepts one byte per call, to_gfa in the GFA tables, serde buffered-Content rule (128-bit k-mers).",
 }
